@@ -564,23 +564,36 @@ def fast_mat(a):
     return [[None if v != v else list(v.as_integer_ratio()) for v in row] for row in a.tolist()]
 
 
-def long_case(seed, k, tier):
+def long_case(seed, k, tier, very=False):
     keep = designs.mat
     designs.mat = fast_mat
     try:
-        return long_case_(seed, k, tier)
+        return long_case_(seed, k, tier, very)
     finally:
         designs.mat = keep
 
 
-def long_case_(seed, k, tier):
+# very long frames (more than 10 000 rows; tenth seeded wave, C08_O: quantile knots taken from a
+# thinned, position-dependent subset of a long column): transforms that fit parameters to the column
+VERY_LONG = ["bs(x, df=4)", "bs(z, df=5, degree=2) + f", "bs(x, df=6):h", "scale(z) + bs(x, df=3)",
+             "center(x) + bs(z, df=4, degree=1)", "bs(z, df=7) + (1 | g)"]
+
+
+def long_case_(seed, k, tier, very=False):
     """-> (case, pairs, meta, failures) for one long frame: design_matrices on the frame and on a row
     permutation of it; evaluate_new_data (common, group) on a long new frame and on its permutation"""
-    r = rng_for(seed, "c08", "long", k)
+    r = rng_for(seed, "c08", "very-long" if very else "long", k)
     n = long_rows(r)
+    if very:
+        n = r.randrange(10001, 13001 if tier == "quick" else 40001)
+        n += 1 if n % 1024 == 0 else 0
     df = long_frame(r, n)
     base = None
-    for _ in range(6):                                # a formula the implementation accepts
+    for _ in range(1 if very else 6):                 # a formula the implementation accepts
+        if very:
+            formula = "y ~ " + VERY_LONG[k % len(VERY_LONG)]
+            base = snapshot(formula, df)
+            break
         groups = [designs.gen_group(r)]
         if r.random() < 0.35:
             groups.append(designs.gen_group(r))
@@ -665,7 +678,9 @@ def explore(tier, seed, res=None, replay=None):
     n_cases = 300 if tier == "quick" else 3500
     cases = []
     long_ks = list(range(3 if tier == "quick" else 12))
-    if replay is not None and "long_rows" in replay:
+    if replay is not None and replay.get("very_long"):
+        long_ks = []
+    elif replay is not None and "long_rows" in replay:
         long_ks = [replay.get("seed_path", 0)]
     elif replay is not None:
         cases = [(replay["formula"], replay.get("seed_path", 0))]
@@ -846,6 +861,25 @@ def explore(tier, seed, res=None, replay=None):
         res.count("long frames (more than 4096 rows) with group-specific terms")
         res.count("pairs over long frames", len(pairs))
         res.nontrivial.add((case["formula"], "long", k))
+        reqs.append({"op": "c08_spec", "pairs": pairs})
+        owners.append((case, meta))
+        res.traces += 1
+    # very long frames (more than 10 000 rows) with transforms that fit parameters to the column
+    for k in ([] if replay is not None and not replay.get("very_long") else
+              [replay["seed_path"]] if replay is not None else
+              range(2 if tier == "quick" else len(VERY_LONG) * 2)):
+        if replay is None and tier == "quick":
+            k = (k * 3 + seed) % len(VERY_LONG)
+        case, pairs, meta, failures, err = long_case(seed, k, tier, very=True)
+        case["very_long"] = True
+        res.evaluations += 1
+        res.failures += failures
+        if err:
+            res.count("impl_error (very long frame):" + err)
+            continue
+        res.count("very long frames (more than 10000 rows) with fitted transforms")
+        res.count("pairs over long frames", len(pairs))
+        res.nontrivial.add((case["formula"], "very-long", k))
         reqs.append({"op": "c08_spec", "pairs": pairs})
         owners.append((case, meta))
         res.traces += 1
